@@ -12,7 +12,8 @@ use crate::client::task::{ClientLoop, SessionError, StateChange};
 use crate::client::Channel;
 use crate::common::frame::{FrameWriter, FramedReader};
 use crate::common::phys::PhysLayer;
-use crate::server::task::{AuthorizationType, ServerCommand, SessionTask};
+pub use crate::server::task::ServerCommand;
+use crate::server::task::{AuthorizationType, SessionTask};
 use crate::server::{AuthorizationHandler, RequestHandler, ServerHandlerMap};
 use crate::{DecodeLevel, RequestError, Shutdown};
 
